@@ -160,7 +160,7 @@ def run(r):
         r.broken_obligation("search-harness", "c03 search failed", (out + err)[-2000:])
     s = summ[0] if summ else {}
     r.coverage["search"] = dict(s, violations=len(viols))
-    for tag in ("directed", "regress", "arith"):
+    for tag in ("directed", "regress", "arith", "power"):
         for x in recs:
             if x.get(tag) is True:
                 r.coverage["search_" + tag] = {k: v for k, v in x.items() if k != tag}
@@ -188,4 +188,5 @@ def run(r):
                           "inputs outside a block's domain (decided by running the term with per-block guards) are skipped and counted; "
                           "directed: un-join family (17 programs), regression programs of repaired anti defects, and every 2-step plus a seeded sample of "
                           "3-step arithmetic chains over +c -c ×c ÷c (c of both signs) ¯ ¬ ˜-c reaching the algebra solver with every class of net slope "
-                          "(>1, 1, (0,1), (-1,0), -1, <-1) x net constant (zero, non-zero), on numeric scalars and arrays")
+                          "(>1, 1, (0,1), (-1,0), -1, <-1) x net constant (zero, non-zero), on numeric scalars and arrays; powers through the algebra solver "
+                          "(°(ⁿk …), F °F, ⍜(ⁿk …) for k from 2 to 1e15, up to rounding, each within 30 s)")
